@@ -19,3 +19,9 @@ claim("C07",
       "Decides only the clause 'every proof served verifies against the space's public key': on every path GetProof returns a non-nil proof only behind the success edge of poc.VerifyProof applied to the returned object, the DB's own key (hash) and the caller's challenge/filter; keeper forwards proof and error; miner keeps Error==nil only. Plus a necessary condition of table correctness: plotting reads are complete (io.ReadFull or tested count).",
       "Trusted: go/ssa, mass-core poc.VerifyProof as oracle. NOT decided (not applicable to static analysis): equality of the stored table with the construction, completeness (a proof is served whenever one exists), any number of windows.",
       "DESIGN.md §4 C07")
+
+claim("C11",
+      "who-may-call census of destructive file ops + call-graph cut + edge-cut dominance + provenance",
+      "Static necessary conditions: the set of destructive file operations in the repository equals a frozen 6-entry who-may-destroy table with path provenance; plot files are erased only via DeleteWS (call-graph cut) and RemoveWS reaches no destructive op; remove/delete effects lie behind the Registered-or-Ready gate (v1 and v2) and MassDBV1.Delete behind plotting==0; every load check dominates indexing in generateInitialIndex; a real header-vs-name comparison guards OpenDB's success; loadHashMap's six header checks guard its success. Holds for all histories/directory contents because each is a property of all CFG/call-graph paths.",
+      "Trusted: go/ssa, CHA call graph over repo types (VTA in thorough), frozen who-may-destroy table, state constant values. Not decided: behaviour for all directory contents as values, the regular expression's language, exactly-once beyond the duplicate gate.",
+      "DESIGN.md §4 C11")
